@@ -97,7 +97,7 @@ class ClassWorld:
         if not k["defs"]:
             lines.append("    pass")
         for j, di in enumerate(k["defs"]):
-            if j == 0 and k["extend"]:
+            if (j == 0 and k["extend"]) or j in k.get("extend_later", []):  # a marker on a later same-named definition changes nothing
                 lines.append("    @extend_super")
             lines += self.def_lines(di, 4)
         return "\n".join(lines) + "\n"
